@@ -11,7 +11,7 @@ Next == UNCHANGED l
 Spec == Init /\ [][Next]_l
 R == Recs[l]
 LineOk(ln, e) ==
-  /\ ln[1] = e[1] /\ ln[2] = e[2] /\ ln[3] = e[2] \div 960
+  /\ ln[1] = e[1] /\ ln[2] = e[2] /\ ln[3] = e[2] \div 960   \* (crd prints tick div 960, the default resolution)
   /\ CASE e[4] = 9 /\ e[7] > 0 -> ln[4] = "NoteOn" /\ ln[5] = e[6] /\ ln[6] = e[7]
        [] e[4] = 8 \/ (e[4] = 9 /\ e[7] = 0) -> ln[4] = "NoteOff" /\ ln[5] = e[6]
        [] e[4] = 12 -> ln[4] = "ProgramChange"
